@@ -197,3 +197,24 @@ theorem C20_auto_rule (hasClasses : Bool) (nf ns nc ncl : Int) :
 /-! non-vacuity -/
 example : checkSdpFromEigen ([3, 0, 1] : List Rat) (1/1000) = .ok false := by decide +kernel
 example : checkSdpFromEigen ([3, -1, 1] : List Rat) (1/1000) = .error .nonPSD := by decide +kernel
+/-- **generated**: the transcription of `_check_sdp_from_eigen` (regenerated from `_util.py` on every run) is
+the model `checkSdpFromEigen` applied to the given tolerance, or to the default `abs(w).max()·len(w)·eps` -/
+theorem C20_sdp_generated (w : List ℝ) (tol : Option ℝ) (eps : ℝ) :
+    MLGen.checkSdpFromEigenGen w tol eps
+      = (checkSdpFromEigen w (tol.getD (defaultTol w eps))).mapError Err.name := by
+  unfold MLGen.checkSdpFromEigenGen checkSdpFromEigen defaultTol
+  cases tol with
+  | none =>
+    simp only [Option.isNone_none, if_true, Option.getD_none, ofNat_real, Nat.cast_zero]
+    split
+    · rfl
+    · split
+      · simp_all [Except.mapError, Err.name]
+      · split <;> simp_all [Except.mapError]
+  | some t =>
+    simp only [Option.isNone_some, Bool.false_eq_true, if_false, Option.getD_some, ofNat_real, Nat.cast_zero]
+    split
+    · rfl
+    · split
+      · simp_all [Except.mapError, Err.name]
+      · split <;> simp_all [Except.mapError]
